@@ -62,9 +62,9 @@ CLAIMED = {
                  "(c) lemmas over that closed form in mixed-radix form: every in-range bin lies inside the buffer / data part of the stream, two "
                  "different bins never share an element (byte ranges disjoint), a row of tangential positions is contiguous - hence a value written "
                  "through one access path is what any other path reads and no other bin changes, for every access path that addresses rows through "
-                 "these two functions. Parametric: numbers of views / tangential positions / bytes per element are constants per job. Not decided: the "
-                 "get_/set_ viewgram / sinogram / segment / RelatedViewgrams code itself, on-disk number type and byte order, Interfile header round "
-                 "trip, flush visibility to a second reader."),
+                 "these two functions; (d) Interfile header reader: the re-ordering loop of find_segment_sequence (statement kernel, loop contract, ghost rank) attaches to every segment number the min/max ring difference and the number of axial positions that the header gave at that segment's position in the stream, each written once inside the vectors' index range. Parametric: numbers of views / tangential positions / bytes per element are constants per job. Not decided: the "
+                 "get_/set_ viewgram / sinogram / segment / RelatedViewgrams code itself, on-disk number type and byte order, the rest of the Interfile "
+                 "header round trip (keyword parsing, the two std::sort calls of find_segment_sequence: assumed), flush visibility to a second reader."),
         "note": ("trusted: cbmc 6.11.0 + kissat; at most 5 segments and 3 TOF bins per proof; segment_sequence/timing_poss_sequence are permutations and "
                  "offset_3d_data is one TOF block (constructors, assumed); the equality of the distributed closed form (verified against the code) and "
                  "the mixed-radix form (used by the lemmas) is distributivity of integer multiplication: discharged by CBMC for power-of-two sizes only, "
